@@ -76,6 +76,27 @@ CHECKS.update({
         note=SIM_NOTE),
 })
 
+MEM_NOTE = ("Trusted base: the in-memory EepromDataProvider (/verif/mc/src/memeeprom.rs) driving the crate's own reader/parser through the verif wrappers, "
+            "the independent EEPROM image generator / CRC (/verif/mc/src/eeprom.rs), and for the device path the segment simulator's SII interface.")
+
+CHECKS.update({
+    "C12": dict(
+        engine="E4 enum (+E3 device path)", category="exploration", design_ref="DESIGN.md section 5 C12",
+        technique="bounded-exhaustive enumeration: every (start word, length) range over tagged images x both chunk sizes; device descriptions enumerated from a grammar, encoded by an independent generator and parsed by the crate; every legal size word; a slice through the real device path on the simulator",
+        text="Raw and typed reads return exactly the stored bytes for every start word and length 0..=40 (odd and even), never more than requested; identity, name, description, mailbox, general, sync managers, FMMU usage, FMMU_EX, PDOs with bit lengths, strings and size equal the description for every enumerated well-formed image, in-memory and through init on a simulated device (4/8-byte SII, busy polls).",
+        note=MEM_NOTE),
+    "C13": dict(
+        engine="E4 enum (+E3 device path), two build flavours", category="exploration", design_ref="DESIGN.md section 5 C13",
+        technique="exhaustive enumeration of a structured adversarial image alphabet (truncations, boundary category lengths at every chain position, wrap-around chains, single-word boundary replacements, capacity overruns) x every EEPROM-derived query with an access budget, plus init of a simulated device per seed; executed with and without overflow checks",
+        text="Every query and init + into_safe_op ends with a value, 'absent' or an error within 2 x 65536 + 4096 device accesses, with no panic, in the overflow-checked and in the plain release flavour.",
+        note=MEM_NOTE + " 'Any contents' is decided for the structured alphabet only."),
+    "C14": dict(
+        engine="E4 enum (+E3 device path)", category="exploration", design_ref="DESIGN.md section 5 C14",
+        technique="exhaustive enumeration of all 65536 alias values x 8 header images with whole-image comparison against an independent CRC-8 reference; generic writes of every length 0..=64 at boundary word addresses; fault enumeration of SII command errors 0..=25, busy polls and busy-forever on the simulated device",
+        text="Setting an alias changes exactly word 4 and word 7 (CRC-8 of the new first 14 bytes, high byte 0) and the alias read back is the new one; generic writes store exactly the bytes (odd tail zero padded) in exactly the words of the range; at most 21 attempts per word; a word that cannot be written and a device that stays busy are errors, not silent success.",
+        note=MEM_NOTE),
+})
+
 NOT_YET = {
 }
 
